@@ -70,6 +70,10 @@ def check_run(desc: dict[str, Any], er: Any, ref: dict[int, dict[str, np.ndarray
     for r in range(R):
         if r not in er.outputs:
             out.append(("C08:rank-did-not-return", f"rank {r}"))
+    for r, (gone, added) in er.args_modified.items():
+        out.append(("C08:callers-input_args-modified",
+                    f"rank {r}: execute_distributed_partition changed the dictionary passed as "
+                    f"input_args (removed {gone}, added {added})"))
     # faithful
     for r, names in ref.items():
         got = er.outputs.get(r, {})
@@ -138,12 +142,13 @@ def explore(desc: dict[str, Any], partitions: dict[int, Any], ref: Any, cap: int
     progs = distrun.prebuilt_programs(partitions)
     stack: list[list[int]] = [[]]
     n = 0
+    shared: dict[int, Any] = {}
     problems: list[Any] = []
     seen_traces: set[tuple[int, ...]] = set()
     while stack and n < cap:
         prefix = stack.pop()
         ch = simmpi.ReplayChooser(prefix)
-        er = distrun.execute_all(desc, partitions, ch, progs=progs)
+        er = distrun.execute_all(desc, partitions, ch, progs=progs, shared_args=shared)
         n += 1
         trace = ch.trace
         seen_traces.add(tuple(c for _k, _n, c in trace))
@@ -170,6 +175,12 @@ def check_case(case: dict[str, Any], col: common.Collector) -> None:
     R = desc["nranks"]
     K = sum(1 for it in desc["items"] if it["kind"] == "send")
     pr = distrun.partition_all(desc)
+    if not pr.errors and len(pr.partitions) != R:
+        col.violation("C08:partitioning-deadlocks-in-collective",
+                      f"no rank raised, but only ranks {sorted(pr.partitions)} of {R} returned "
+                      f"from the collective partitioning calls; stages {pr.stage}", wit)
+        col.case()
+        return
     if pr.errors or len(pr.partitions) != R:
         for r, e in pr.errors.items():
             col.violation(f"C08:partitioning-raises:{pr.stage.get(r)}:{type(e).__name__}@"
@@ -201,10 +212,12 @@ def check_case(case: dict[str, Any], col: common.Collector) -> None:
                 col.count("mon.exhaustive_programs")
         if not problems and not exhaustive:
             progs = distrun.prebuilt_programs(pr.partitions)
+            shared: dict[int, Any] = {}      # one input dictionary per rank, reused by all runs
             for j in range(RANDOM_SCHEDULES[tier]):
                 ch2 = simmpi.RandomChooser(common.sub_seed(desc["seed"], "sched", j),
                                            STYLES[j % len(STYLES)])
-                er = distrun.execute_all(desc, pr.partitions, ch2, progs=progs)
+                er = distrun.execute_all(desc, pr.partitions, ch2, progs=progs,
+                                         shared_args=shared)
                 nsched += 1
                 col.count("mon.context_events", sum(len(v) for v in er.ctx_log.values()))
                 col.count("mon.messages_checked",
